@@ -132,23 +132,36 @@ def norm_key(tab, r):
     return (tuple(tab.lower(fold(r["d"])[0])), tuple(tab.lower(fold(r["b"])[0])), tuple(fold(r["u"])[0]), tuple(tab.lower(fold(r["h"])[0])))
 
 
+def tok_key(tab, k):
+    """identity of an access rule: its parsed expressions (the path in the trie)"""
+    return (tuple(parse(tab.ci, k[0])), tuple(parse(tab.ci, k[1])), tuple(parse(tab.bin, k[2])), tuple(parse(tab.ci, k[3])))
+
+
 def _lower_py(s):
     return [ord(ch) for ch in "".join(chr(c) for c in s).lower()] if all(c not in (0x130,) for c in s) else s
 
 
+_CI = {ord("é"): ord("e"), ord("É"): ord("e")}
+
+
 def key_py(r):
-    """normalised key computed without the implementation's tables (generator side)"""
-    return (tuple(_lower_py(fold(r["d"])[0])), tuple(_lower_py(fold(r["b"])[0])), tuple(fold(r["u"])[0]), tuple(_lower_py(fold(r["h"])[0])))
+    """identity of a rule computed without the implementation's tables (generator side): parsed tokens, accent- and
+    case-insensitive except for the user"""
+    def ci(c):
+        c = _CI.get(c, c)
+        return ord(chr(c).lower()) if len(chr(c).lower()) == 1 else c
+    return (tuple(parse(ci, fold(r["d"])[0])), tuple(parse(ci, fold(r["b"])[0])), tuple(parse(lambda c: c, fold(r["u"])[0])), tuple(parse(ci, fold(r["h"])[0])))
 
 
-def current_rules(tab, ops):
+def current_rules(tab, ops, by_tokens=True):
     cur = {}
     for op in ops:
         k = norm_key(tab, op)
+        same = [k2 for k2 in cur if (tok_key(tab, k2) == tok_key(tab, k) if by_tokens else k2 == k)]
+        for k2 in same:
+            del cur[k2]
         if op["ins"]:
             cur[k] = op["perm"]
-        else:
-            cur.pop(k, None)
     return cur
 
 
@@ -288,21 +301,38 @@ def respell(rng, r):
     return dict(r, d=f(r["d"], True), b=f(r["b"], True), u=f(r["u"], False), h=f(r["h"], True))
 
 
+FAMILY = ["main", "m%", "%n", "ma_n", "%", "m%n", "____", "%a%", "ma%", "_ain", "MAIN", "m\\ain", "%i%", "mai_", "%in"]
+
+
 def gen_table(rng, kind, sql):
     live = {}
     ops = []
     n = rng.randint(1, 6)
+    family = rng.random() < 0.5            # overlapping rules on one database/user/host: ties in length, longest wins
+    fd, fu, fh = rng.choice(["db", "%", "d%"]), rng.choice(["u", "%", "u"]), rng.choice(["h", "%", "h"])
+    graveyard = []
     for _ in range(n):
         k = rng.random()
-        if live and k < 0.22:
+        if graveyard and k < 0.12:
+            r = graveyard.pop()                                # re-insert a deleted rule (possibly with other permissions)
+            r = dict(r, ins=True, perm=0 if kind == "ns" else rng.choice([1, 2, 4, 8]))
+            key = key_py(r)
+            if key in live:
+                continue
+            live[key] = r
+            ops.append(r)
+        elif live and k < 0.3:
             key = rng.choice(list(live))
             r = respell(rng, live[key]) if rng.random() < 0.5 else live[key]
             ops.append(dict(r, ins=False))
+            graveyard.append(live[key])
             del live[key]
-        elif k < 0.3:
+        elif k < 0.36:
             ops.append(dict(gen_rule(rng), ins=False))        # delete of something absent
         else:
             r = gen_rule(rng)
+            if family:
+                r.update(d=cp(fd), u=cp(fu), h=cp(fh), b=cp(rng.choice(FAMILY)))
             if kind == "ns":
                 r["perm"] = 0
             key = key_py(r)
@@ -318,6 +348,8 @@ def gen_table(rng, kind, sql):
         plain = rng.random() < 0.75          # most requests carry no % _ \ (those are the known-finding class for the access table)
         q = [instantiate(rng, fold(r["d"])[0], not plain), instantiate(rng, fold(r["b"])[0], not plain) if k < 0.7 else cp(rng.choice(REQ_BRS)),
              instantiate(rng, fold(r["u"])[0], not plain), instantiate(rng, fold(r["h"])[0], not plain)]
+        if family and rng.random() < 0.7:
+            q = [cp("db"), cp(rng.choice(["main", "Main", "man", "mn", "maan", "xain", "m"])), cp("u"), cp("h")]
         if plain and kind == "acc":
             q = [[c for c in col if c not in SPECIAL] for col in q]
         reqs.append(q)
@@ -390,6 +422,15 @@ def _reqs(qs):
     return cq_list("mk_req %s %s %s %s" % tuple(_str(c) for c in q) for q in qs)
 
 
+def eff_ops(case, o):
+    """the history the tables accepted: SQL-driven cases report per statement whether it was applied (dolt_branch_control rejects a
+    row already covered by an existing rule with the same permissions; duplicate keys are rejected)"""
+    ap = (o or {}).get("applied")
+    if not ap or len(ap) != len(case["ops"]):
+        return case["ops"]
+    return [op for op, a in zip(case["ops"], ap) if a]
+
+
 def coq_case(case, out):
     o = out.get("obs")
     bad = (not o) or out.get("err") or out.get("panic")
@@ -402,11 +443,11 @@ def coq_case(case, out):
         i = "IM1 %s %d%%N %s %s" % (tab, case.get("coll", 0), _str(case["p"]), _str(case["s"]))
         ob = "OBad" if bad else "OM1 %s %s" % (_str(o.get("fold", [])), cq_bool(o.get("m", False)))
     elif k == "acc":
-        i = "IAcc %s %s %s" % (tab, _ops(case["ops"]), _reqs(case["reqs"]))
+        i = "IAcc %s %s %s" % (tab, _ops(eff_ops(case, o)), _reqs(case["reqs"]))
         ob = "OBad" if bad else "OAcc %s %s" % (cq_list("(%s, %d%%N)" % (cq_bool(f), p) for f, p in zip(o.get("found", []), o.get("perms", []))),
                                                 cq_list(_rule(r) for r in o.get("rows", [])))
     else:
-        i = "INs %s %s %s" % (tab, _ops(case["ops"]), _reqs(case["reqs"]))
+        i = "INs %s %s %s" % (tab, _ops(eff_ops(case, o)), _reqs(case["reqs"]))
         ob = "OBad" if bad else "ONs %s %s" % (cq_list(cq_bool(b) for b in o.get("can", [])), cq_list(_rule(r) for r in o.get("rows", [])))
     return "(%s, %s)" % (i, ob)
 
@@ -420,7 +461,7 @@ def _has_special(q):
 
 def _acc_diffs(case, o):
     tab = Tab(o["tab"])
-    cur = current_rules(tab, case["ops"])
+    cur = current_rules(tab, eff_ops(case, o))
     diffs = []
     for i, q in enumerate(case["reqs"]):
         want = spec_access(tab, cur, q)
@@ -434,7 +475,7 @@ def _acc_diffs(case, o):
 
 def _ns_diffs(case, o):
     tab = Tab(o["tab"])
-    cur = current_rules(tab, case["ops"])
+    cur = current_rules(tab, eff_ops(case, o), by_tokens=False)
     diffs = [i for i, q in enumerate(case["reqs"]) if spec_can_create(tab, cur, q) != o["can"][i]]
     return cur, diffs
 
@@ -484,7 +525,9 @@ def classify(case, out):
         if any(not op["ins"] for op in case["ops"]):
             t.append("acc-delete")
         seen, dead = set(), set()
-        for op in case["ops"]:
+        if o.get("applied") and not all(o["applied"]):
+            t.append("acc-sql-insert-rejected")
+        for op in eff_ops(case, o):
             key = norm_key(tab, op)
             if op["ins"]:
                 if key in dead:
